@@ -57,6 +57,9 @@ def c05_worker(item):
     count = len(ws.patches) if goal == "-a" else r.randint(1, len(ws.patches))
     args = base_args(threads=threads, backup=backup, verbosity=verbosity) + ["push"] + (["-a"] if goal == "-a" else [str(count)])
     cfg_sig = {"driver": "seq" if threads == 1 else "par", "verbosity": verbosity or "default"}
+    # a quarter of the runs name the working directory with -d (from another cwd) and / or keep the patches elsewhere (-p)
+    use_d = r.random() < 0.25
+    patches_dir = r.choice(["patches", "patches", "my-patches", "nested/patch dir"])
     unloadable_at = None
     if r.random() < 0.08:
         # an input error in the middle of the range: a patch names a directory as the file to patch.
@@ -76,7 +79,26 @@ def c05_worker(item):
                 pt.text = extra + pt.text
     with Scratch("c05") as scr:
         orig, work = fresh(scr, ws, first)
-        rr = runner.run_rq(binary, work, args)
+        run_cwd = work
+        if patches_dir != "patches":
+            for d in (orig, work):
+                os.makedirs(os.path.dirname(os.path.join(d, patches_dir)) or d, exist_ok=True)
+                os.rename(os.path.join(d, "patches"), os.path.join(d, patches_dir))
+            args = ["-p", patches_dir] + args
+            res.count("runs-with--p")
+        if use_d:
+            run_cwd = scr
+            args = ["-d", "ws"] + args
+            res.count("runs-with--d")
+        rr = runner.run_rq(binary, run_cwd, args)
+        if patches_dir != "patches":
+            # put the patches back where the observation code expects its inputs
+            os.rename(os.path.join(work, patches_dir), os.path.join(work, "patches"))
+            if "/" in patches_dir:
+                try:
+                    os.removedirs(os.path.dirname(os.path.join(work, patches_dir)))
+                except OSError:
+                    pass
         res["evals"] = 1
         if unloadable_at is not None:
             res.count("runs-with-an-unloadable-target")
